@@ -121,13 +121,28 @@ impl GenerationPass for AvailableValuePass {
         // the values with the correct previous nodes are calculated.
         #[allow(clippy::mutable_key_type)]
         let mut visited = HashSet::new();
+        // A node all of whose predecessors come later in the program waits until
+        // one of them has been visited: nothing is known about any way into it
+        // yet, which is not the same as knowing nothing. Only code that no
+        // visited node leads to (an unreachable cycle) is started without.
+        let mut wait_for_a_predecessor = true;
         while changed {
             changed = false;
+            let visited_before = visited.len();
+            let mut waiting = false;
             #[cfg(feature = "rva_verif")]
             crate::verif::sweep();
             for node in cfg.iter() {
+                if wait_for_a_predecessor
+                    && !visited.contains(&node)
+                    && !node.prevs().is_empty()
+                    && !node.prevs().iter().any(|prev| visited.contains(prev))
+                {
+                    waiting = true;
+                    continue;
+                }
                 // in[n] = AND out[p] for all p in prev[n]
-                let in_reg_n = node
+                let mut in_reg_n = node
                     .prevs()
                     .clone()
                     .into_iter()
@@ -138,10 +153,18 @@ impl GenerationPass for AvailableValuePass {
                         acc
                     })
                     .unwrap_or_default();
+                // The first visit of a node only sees the predecessors visited so
+                // far. From then on what is known in front of it can only shrink:
+                // without this, facts that travel round a cycle against the program
+                // order can chase each other for ever.
+                let seen_before = visited.contains(&node);
+                if seen_before {
+                    in_reg_n &= &node.reg_values_in();
+                }
                 changed |= node.set_reg_values_in(in_reg_n);
 
                 // in_memory[n] = AND out_memory[p] for all p in prev[n]
-                let in_memory_n = node
+                let mut in_memory_n = node
                     .prevs()
                     .clone()
                     .into_iter()
@@ -152,6 +175,9 @@ impl GenerationPass for AvailableValuePass {
                         acc
                     })
                     .unwrap_or_default();
+                if seen_before {
+                    in_memory_n &= &node.memory_values_in();
+                }
                 changed |= node.set_memory_values_in(in_memory_n);
 
                 // out[n] = gen[n] U (in[n] - kill[n]) U (callee_saved if n is entry)
@@ -306,6 +332,14 @@ impl GenerationPass for AvailableValuePass {
 
                 // Add node to visited
                 visited.insert(Rc::clone(&node));
+            }
+            if waiting {
+                // Go on while nodes are still waiting; once a sweep reaches
+                // nothing new, stop waiting
+                if !changed && visited.len() == visited_before {
+                    wait_for_a_predecessor = false;
+                }
+                changed = true;
             }
         }
         Ok(())
